@@ -27,7 +27,9 @@ import (
 const rule = "case = rapid-drawn (primary engine config with a 1-4 KiB or 32 MiB memtable, key pool, 1-4 phases of primary operations " +
 	"over put/delete/multi-key transaction/explicit flush; phase kinds: burst 1-30 ops, big 101-160 ops, bulk 100-160 puts of 11-33 KB followed by a " +
 	"replica join or restart, trickle 1-2 ops after 1.3-2.5 s of idleness, and as last phase 1-5 writes after 3-6 s of idleness with a connected replica; " +
-	"a pause of 0-1.5 s after each other phase; default or 200 ms / 1 s heartbeat; 1-2 replicas each with a join boundary " +
+	"a pause of 0-1.5 s after each other phase; in 1/7 of the cases the shape aged_burst: replica connected before 2-12 early writes, 15-22 s of silence (quick tier: 15-16 s), " +
+	"then a burst of 150-400 single-key writes; in 1/4 of the other cases one replica that joins late or replays after a restart gets ONE transient error from its " +
+	"storage on a drawn non-first entry of its first multi-entry catch-up message; default or 200 ms / 1 s heartbeat; 1-2 replicas each with a join boundary " +
 	"(before, between or after the write phases) and optionally a stop+close / reopen+restart pair of boundaries on the same directory); " +
 	"executed in a child process with real engines and replication.Manager on both sides over loopback TCP; " +
 	"oracle = after the last write, within 60 s + 3 s x phases, Get of every pool key and a full scan of every replica engine equal those of the " +
@@ -172,6 +174,10 @@ func record(c *Case, r *Result) {
 	if r.Regressions > 0 {
 		ev.R().Count("cases_equal_then_regressed_before_settling", 1)
 	}
+	if d := os.Getenv("VERIF_C14_KEEP"); d != "" && r.ConvergeMs >= 15000 {
+		b, _ := json.MarshalIndent(Doc{Property: "C14", Signature: "slow", Case: *c, Result: r}, "", " ")
+		_ = os.WriteFile(filepath.Join(d, fmt.Sprintf("slow-%d-%d.json", r.ConvergeMs, time.Now().UnixNano())), b, 0o644)
+	}
 	if r.Verdict == "abandon" {
 		ev.R().Count("abandoned:"+r.Sig, 1)
 		ev.R().Note("abandoned: " + r.Sig + ": " + clip(r.Msg, 200))
@@ -192,6 +198,9 @@ func TestProp(t *testing.T) {
 		nt, classes := classify(&c)
 		if r.PrimaryWALs > 1 {
 			classes = append(classes, "primary_log_rotated(observed)")
+		}
+		if r.ApplyFaultFired {
+			classes = append(classes, "replica_apply_fault_fired(observed)")
 		}
 		ev.R().Case(ev.Hash(&c), nt, classes, func() any { return &c })
 		record(&c, r)
